@@ -45,6 +45,6 @@ def run_c12(tier, seed, replay=None):
                  "TSan reports without a Pistache frame are not judged"])
 
 def run_c13(tier, seed, replay=None):
-    return _run("C13", "c13", tier, seed, 3000 if tier == "quick" else 300000, 12000 if tier == "quick" else 1200000,
+    return _run("C13", "c13", tier, seed, 3000 if tier == "quick" else 150000, 12000 if tier == "quick" else 600000,
                 "1-3 producers x 1-3 pushes against the framework's consumer pattern (sleep until the eventfd is readable, then popSafe() until empty), scheduled by the cooperative scheduler at the mailbox.h hooks (exchange, link store, tail read, eventfd write/read); unique item ids give loss/duplication/order; the wake-up predicate (queue non-empty, eventfd not readable, consumer idle, producers done) is evaluated when the consumer goes idle; plus free-running rounds under ThreadSanitizer. distinct = distinct (shape, schedule trace) hashes",
                 ["schedules are sampled, not enumerated", "epoll_wait is modelled as 'sleep until poll() says readable'"])
